@@ -31,7 +31,7 @@ Section Disc.
   Qed.
 
   Definition ps_ev_ok (e : ps_event) : Prop :=
-    match e with EvRaw p => ps_disc p | _ => True end.
+    match e with PsEvRaw p => ps_disc p | _ => True end.
 
   Lemma ps_ev_d : forall e m, ps_ev_ok e -> ps_disc (ps_ev alloc c e m).
   Proof.
@@ -43,37 +43,37 @@ Section Disc.
       apply ps_when_d; [apply ps_res_deleted_d|].
       apply ps_untrack_all_d. constructor.
     - unfold ps_ev_reg. destruct (ps_find name m) as [r|]; [|constructor].
-      destruct (negb (rs_observable r)); [constructor|].
-      destruct (ps_find_tok tuple token (rs_subs r)); [constructor|].
-      assert (H : ps_disc (ps_when (cf_obs c)
-                 (ps_obs_added (cf_la c) (cf_lt c) (cf_fuel c)
-                    (ps_obs_of c (mkSub (alloc (ps_live (ps_replace (mkRsrc name true (rs_observe r)
-                       match ps_find_ck tuple ck (rs_subs r) with
-                       | Some o => ps_drop_key (su_key o) (rs_subs r)
-                       | None => rs_subs r
+      destruct (negb (psr_observable r)); [constructor|].
+      destruct (ps_find_tok tuple token (psr_subs r)); [constructor|].
+      assert (H : ps_disc (ps_when (psc_obs c)
+                 (ps_obs_added (psc_la c) (psc_lt c) (psc_fuel c)
+                    (ps_obs_of c (mkSub (alloc (ps_live (ps_replace (mkRsrc name true (psr_observe r)
+                       match ps_find_ck tuple ck (psr_subs r) with
+                       | Some o => ps_drop_key (pss_key o) (psr_subs r)
+                       | None => psr_subs r
                        end) m))) tuple token ck pkt)))
-                 (ps_track c name (rs_observe r)
-                    (PsRet (Some (ps_replace (mkRsrc name true (rs_observe r)
-                       (mkSub (alloc (ps_live (ps_replace (mkRsrc name true (rs_observe r)
-                          match ps_find_ck tuple ck (rs_subs r) with
-                          | Some o => ps_drop_key (su_key o) (rs_subs r)
-                          | None => rs_subs r
+                 (ps_track c name (psr_observe r)
+                    (PsRet (Some (ps_replace (mkRsrc name true (psr_observe r)
+                       (mkSub (alloc (ps_live (ps_replace (mkRsrc name true (psr_observe r)
+                          match ps_find_ck tuple ck (psr_subs r) with
+                          | Some o => ps_drop_key (pss_key o) (psr_subs r)
+                          | None => psr_subs r
                           end) m))) tuple token ck pkt ::
-                        match ps_find_ck tuple ck (rs_subs r) with
-                        | Some o => ps_drop_key (su_key o) (rs_subs r)
-                        | None => rs_subs r
-                        end)) m, [(tuple, token, rs_observe r)])))))).
+                        match ps_find_ck tuple ck (psr_subs r) with
+                        | Some o => ps_drop_key (pss_key o) (psr_subs r)
+                        | None => psr_subs r
+                        end)) m, [(tuple, token, psr_observe r)])))))).
       { apply ps_when_d; [apply ps_disc1_disc; apply ps_obs_added_d1|].
         unfold ps_track. apply ps_when_d; [apply ps_disc1_disc; apply ps_cnt_track_d1|constructor]. }
-      destruct (ps_find_ck tuple ck (rs_subs r)) as [o|]; [|exact H].
+      destruct (ps_find_ck tuple ck (psr_subs r)) as [o|]; [|exact H].
       unfold ps_untrack_sub. apply ps_when_d; [apply ps_disc1_disc; apply ps_obs_deleted_d1|exact H].
     - unfold ps_ev_cancel. destruct (ps_find name m) as [r|]; [|constructor].
-      destruct (negb (rs_observable r)); [constructor|].
-      destruct (match ps_find_tok tuple token (rs_subs r) with
-                | Some s => Some s | None => ps_find_ck tuple ck (rs_subs r) end); [|constructor].
+      destruct (negb (psr_observable r)); [constructor|].
+      destruct (match ps_find_tok tuple token (psr_subs r) with
+                | Some s => Some s | None => ps_find_ck tuple ck (psr_subs r) end); [|constructor].
       unfold ps_untrack_sub. apply ps_when_d; [apply ps_disc1_disc; apply ps_obs_deleted_d1|constructor].
     - unfold ps_ev_notify. destruct (ps_find name m) as [r|]; [|constructor].
-      destruct (rs_observable r); [|constructor]. destruct (rs_subs r); [constructor|].
+      destruct (psr_observable r); [|constructor]. destruct (psr_subs r); [constructor|].
       apply ps_when_d; [apply ps_disc1_disc; apply ps_cnt_track_d1|constructor].
     - apply ps_guard_d; [exact He|constructor].
   Qed.
@@ -88,25 +88,25 @@ Section Disc.
   Lemma ps_obs_step_d : forall r m, ps_disc (ps_obs_step req alloc c r m).
   Proof.
     intros r m. unfold ps_obs_step.
-    destruct (negb (ps_beq (ob_proto r) (cf_proto c))); [constructor|].
-    destruct (negb (ps_beq (ob_listen r) (cf_listen c))); [constructor|].
-    destruct (req (ob_pkt r)) as [[[name token] ck]|]; [|constructor].
+    destruct (negb (ps_beq (pso_proto r) (psc_proto c))); [constructor|].
+    destruct (negb (ps_beq (pso_listen r) (psc_listen c))); [constructor|].
+    destruct (req (pso_pkt r)) as [[[name token] ck]|]; [|constructor].
     destruct (ps_find name m) as [rs|]; [|constructor].
-    destruct (negb (rs_observable rs)); [constructor|].
-    destruct (ps_find_tok (ob_tuple r) token (rs_subs rs)); [constructor|].
-    destruct (cf_cnt c); [|constructor].
+    destruct (negb (psr_observable rs)); [constructor|].
+    destruct (ps_find_tok (pso_tuple r) token (psr_subs rs)); [constructor|].
+    destruct (psc_cnt c); [|constructor].
     apply ps_disc_bind; [apply ps_disc1_disc; apply ps_cnt_track_d1|]. intro; constructor.
   Qed.
 
   Lemma ps_startup_d : forall m0, ps_disc (ps_startup app req alloc c m0).
   Proof.
     intro m0. unfold ps_startup. apply ps_disc_bind.
-    - destruct (cf_dyn c && cf_unknown c); [|constructor].
+    - destruct (psc_dyn c && psc_unknown c); [|constructor].
       apply ps_disc1_disc. apply ps_disc0_disc1. apply ps_dyn_load_d0.
     - intros [m1|]; [|constructor]. apply ps_disc_bind.
-      + destruct (cf_cnt c); [|constructor].
+      + destruct (psc_cnt c); [|constructor].
         apply ps_disc1_disc. apply ps_disc0_disc1. apply ps_cnt_load_d0.
-      + intros [cnts|]; [|constructor]. destruct (cf_obs c); [|constructor].
+      + intros [cnts|]; [|constructor]. destruct (psc_obs c); [|constructor].
         apply ps_obs_load_d. intros. apply ps_obs_step_d.
   Qed.
 
